@@ -259,6 +259,31 @@ def rule_solve_one(ctx: Ctx, prog: Program, want: Tuple[str, ...] = ("R-SOLUTION
                 else:
                     ctx.violation("R-SOLUTION", fn.path, "solve_one", "backtrack-call", f"{fn.path}:{bts[0].line}",
                                   f"solve_one ({a.mode}): backtrack must be called once, with this solver's arrays, exactly when propagation failed")
+        # a value heuristic called from a loop nested in the search loop (several decisions per propagation pass): the guard must hold
+        # before *each* call, i.e. on the body paths of that inner loop, where the level pointer is what the previous decision left
+        if "R-CAPACITY" in want:
+            seen_loops: List[LoopSummary] = [a.loop]
+            work = [l for bp in a.loop.paths for l in loops_of(bp.state.trace)]
+            while work:
+                l = work.pop()
+                if any(l is x for x in seen_loops):
+                    continue
+                seen_loops.append(l)
+                for bp in l.paths:
+                    work.extend(loops_of(bp.state.trace))
+                    for e in a.icalls(bp):
+                        if KIND.get(a.table_of(e) or "") != "dom":
+                            continue
+                        top_before = it.load_at(bp.state, e.hpos, P["stacks_top"], (K(0),))
+                        q = cmp_cond("<", top_before.addc(max_push), Aff.atom(("len", P["shr_domains_stack"], ())))
+                        if bp.state.facts.decide(q) is True:
+                            ctx.ok("R-CAPACITY", f"{a.mode}: push in a nested decision loop guarded: top + {max_push} < len(stack)")
+                        else:
+                            ctx.violation("R-CAPACITY", fn.path, "solve_one", "push-unguarded" if not push_primitive_self_guarded(prog) else "push-unreported", f"{fn.path}:{e.line}",
+                                          f"solve_one ({a.mode}) calls the value heuristic from a loop nested in the search loop (several decisions per propagation "
+                                          f"pass) and nothing on that loop's own path ensures stacks_top[0] + {max_push} < len(shr_domains_stack) before each call: the guard "
+                                          "of the enclosing iteration is evaluated once, the pushes repeat -- a search deeper than stack_max_height writes past the "
+                                          "stacks (compiled code has no bounds check) instead of raising")
         ctx.floor(f"solve_one:{a.mode}:solution-paths", n_sol, 1)
         ctx.floor(f"solve_one:{a.mode}:choice-paths", n_choice, 1)
         if "R-SOLUTION" in want:
